@@ -91,6 +91,16 @@ CHECKS = {
              "caller or to its default, returns the callee's return value to the caller, and leaves caller and sibling variables of the same names untouched.",
         note="Program text is generated per call shape and parsed natively; the event carrying the symbolic values and everything after it is traced. Outside: >3 parameters, globals, surplus arguments.",
         ref="4/C08"),
+    "C10": dict(
+        text="Through the real RuntimeV2_x.process_events (driven on a virtual-time asyncio loop): for 8 kinds of faulty flow (type error in an assignment, comparison pattern that cannot be "
+             "built, comparison against a payload of the wrong type, invalid regex pattern, priority out of range, payload-dependent division by zero and index error, fault-free control), "
+             "started once or activated, and every history of 2 (thorough 3) events over {Ev(a symbolic int), Ev(a string), Other, Irrelevant}: no exception escapes, every run_to_completion "
+             "stays within a step budget, an unrelated flow in another interaction loop and one in the same loop react exactly once to each of their events, ColangError is observed exactly "
+             "when the payload triggers the fault, and only the faulty flow stops. Termination family: an activated flow that aborts / raises / returns before any wait depending on a "
+             "symbolic payload, and mutually recursive flows with waits, stay within the budget.",
+        note="The step budget (150 internal events per run_to_completion; the unchanged tree needs <=14) is divergence detection, not a complexity proof. Calls whose event and state are fully "
+             "concrete run natively. Outside: wait-free loops (excluded by the property), faults in library flows.",
+        ref="4/C10"),
 }
 
 NOT_APPLICABLE = {
